@@ -655,6 +655,17 @@ class Executor:
                 hv.loc[name] = V(T_DYN)   # was None before the loop, may hold anything after
         tr_before = {k_: v_ for k_, v_ in entry.heap.maps.items() if k_.startswith('$tr')}
         self.havoc_heap(hv, spec.modifies, fr, entry)
+        if spec.modifies is not None:
+            # earlier iterations may have allocated: at the loop head the set of live objects is any superset of
+            # the one at loop entry (the state of such objects is whatever the invariants say about them)
+            r_ = z3.Const('hv_r', Ref)
+            if sym.BOUND is None:
+                na_ = fresh('alive', z3.ArraySort(Ref, B))
+                hv.assume(z3.ForAll([r_], z3.Implies(entry.heap.alive(r_), na_[r_]), patterns=[na_[r_]]))
+                hv.heap.set('alive', na_)
+            else:
+                extra_ = fresh('alloc', z3.ArraySort(Ref, B))
+                hv.heap.set('alive', z3.Lambda([r_], z3.Or(entry.heap.alive(r_), extra_[r_])))
         if spec.modifies is not None and any(m_.strip() == '$trace' for m_ in spec.modifies):
             from .calls import assume_trace_prefix
             assume_trace_prefix(hv, tr_before)
@@ -694,7 +705,7 @@ class Executor:
                                             {'clause': 'the loop cursor does not pass the end of the iterated collection'})
                         self.check_invs(spec, s2, entry, fr, lname + '.preserved', 'loop_preserved')
                         if spec.modifies is not None:
-                            self.check_frame(lname + '.frame', start, s2, spec.modifies, fr, entry)
+                            self.check_frame(lname + '.frame', start, s2, spec.modifies, fr, entry, alive_at=entry)
                     elif kind == 'break':
                         yield 'next', None, s2
                     else:
@@ -888,9 +899,20 @@ class Executor:
                     if key == 'Llen' or key.startswith('L:'):
                         arr = h.maps[key]
                         na = fresh('hv_dv', arr.sort())
-                        st.assume(z3.ForAll([r], z3.Implies(z3.Not(isval(r)), na[r] == arr[r]), patterns=[na[r]]))
-                        h.set(key, na)
-                st.assume(z3.ForAll([r], h.llen(r) >= 0, patterns=[h.llen(r)]))
+                        if sym.BOUND is None:
+                            st.assume(z3.ForAll([r], z3.Implies(z3.Not(isval(r)), na[r] == arr[r]), patterns=[na[r]]))
+                            h.set(key, na)
+                        else:
+                            # ground: new map = fresh on the (at most BOUND) values of the dict, old elsewhere
+                            h.set(key, z3.Lambda([r], z3.If(isval(r), na[r], arr[r])))
+                if sym.BOUND is None:
+                    st.assume(z3.ForAll([r], h.llen(r) >= 0, patterns=[h.llen(r)]))
+                else:
+                    hh_ = f.heap
+                    keys_, n_ = hh_.dkeys(obj.t), hh_.dlen(obj.t)
+                    vals_ = hh_.darrs(obj.t, obj.ty.val)[0]
+                    for c_ in range(sym.BOUND):
+                        st.assume(h.llen(vals_[keys_[c_]]) >= 0)
             elif kind == 'trace':
                 # every component of the ghost trace (also those not touched so far) gets a fresh value
                 comps = {'$tr.kind': I, '$tr.fn': Clo, '$tr.recv': Ref, '$tr.resb': B, '$tr.resx': R, '$tr.resn': B,
@@ -913,6 +935,11 @@ class Executor:
         hh = at_state.heap
         dom = hh.ddom(d.t)
         vals = hh.darrs(d.t, d.ty.val)[0]
+        if sym.BOUND is not None:
+            # ground version for bounded refutation: the values are those under the first (at most BOUND) keys
+            sym.SIDE.extend(sym.dict_wf(hh, d.t))
+            keys, nn = hh.dkeys(d.t), hh.dlen(d.t)
+            return lambda r_: z3.Or(*[z3.And(nn > c, vals[keys[c]] == r_) for c in range(sym.BOUND)])
         n = next(sym._counter)
         isval = z3.Function(f'isval!{n}', Ref, B)
         wit = z3.Function(f'valwit!{n}', Ref, Ref)
@@ -946,12 +973,13 @@ class Executor:
         h.maps['$alive_base'] = h.maps['alive']
         return old
 
-    def check_frame(self, name, pre, post, modifies, fr, at_state):
-        """Everything outside `modifies` (and outside objects allocated since `pre`) is unchanged."""
+    def check_frame(self, name, pre, post, modifies, fr, at_state, alive_at=None):
+        """Everything outside `modifies` (and outside objects allocated since `pre`; for a loop iteration:
+        since loop entry = `alive_at`) is unchanged."""
         locs = self.resolve_locs(modifies, at_state, fr)
         bad = []
         r = fresh('fr_r', Ref)
-        was_alive = pre.heap.alive(r)
+        was_alive = (alive_at or pre).heap.alive(r)
         wa, wb = pre.heap.maps.get('$world_havocked'), post.heap.maps.get('$world_havocked')
         self_only = wb is not None and (wa is None or not wa.eq(wb)) and self.task_self is not None
         if self_only:
